@@ -1,0 +1,62 @@
+//go:build verif
+
+// Contracts for contract-based deductive verification (govc, /verif).
+// This file contains comments only; it adds no code to the package.
+
+package pslice
+
+//@ # addresses are immutable values identified by their bytes (ledger)
+//@ opaque github.com/gauss-project/aurorafs/pkg/boson.Address as Addr
+//@ spec func addrBytes(a boson.Address) Bytes
+//@ extern func (github.com/gauss-project/aurorafs/pkg/boson.Address).Bytes
+//@   ensures seq(result) == addrBytes(a)
+//@   assigns nothing
+//@ extern func (github.com/gauss-project/aurorafs/pkg/boson.Address).Equal
+//@   ensures result == (a == b)
+//@   assigns nothing
+
+//@ # bin a peer belongs to: capped proximity of its bytes to the base address
+//@ spec func pobin(base Bytes, maxBins int, peer Bytes) int
+//@ spec func binOf(s *PSlice, a boson.Address) int = pobin(seq(s.baseBytes), s.maxBins, addrBytes(a))
+
+//@ # representation invariant
+//@ spec func shape(s *PSlice) bool = 1 <= s.maxBins && s.maxBins <= 32 && len(s.peers) == s.maxBins
+//@ spec func nodup(s *PSlice) bool = forall b, i, j :: 0 <= b && b < s.maxBins && 0 <= i && i < j && j < len(s.peers[b]) ==> s.peers[b][i] != s.peers[b][j]
+//@ spec func inbin(s *PSlice) bool = forall b, i :: 0 <= b && b < s.maxBins && 0 <= i && i < len(s.peers[b]) ==> binOf(s, s.peers[b][i]) == b
+//@ spec func apart(s *PSlice) bool = forall b, c :: 0 <= b && b < c && c < s.maxBins ==> ref(s.peers[b]) != ref(s.peers[c]) || ref(s.peers[b]) == 0
+//@ spec func psok(s *PSlice) bool = shape(s) && nodup(s) && inbin(s) && apart(s) && forall b :: 0 <= b && b < s.maxBins ==> ref(s.peers[b]) != ref(s.peers)
+
+//@ # abstract view: the set of peers
+//@ spec func mem(s *PSlice, x boson.Address) bool = 0 <= binOf(s, x) && binOf(s, x) < s.maxBins && exists i :: 0 <= i && i < len(s.peers[binOf(s, x)]) && s.peers[binOf(s, x)][i] == x
+
+//@ func (*PSlice).po
+//@   property C21
+//@   requires shape(s)
+//@   ensures assumed-deterministic: int(result) == pobin(seq(s.baseBytes), s.maxBins, seq(peer))
+//@   ensures in-range: 0 <= int(result) && int(result) < s.maxBins
+//@   assigns nothing
+//@   note the value of pobin is whatever the code computes (proximity capped at maxBins-1); only its range is proved here, its meaning is C20
+
+//@ func (*PSlice).index
+//@   property C21
+//@   requires shape(s) && inbin(s) && int(po) == binOf(s, addr) && 0 <= int(po) && int(po) < s.maxBins
+//@   ensures found-iff-member: result0 <==> mem(s, addr)
+//@   ensures position: result0 ==> 0 <= result1 && result1 < len(s.peers[int(po)]) && s.peers[int(po)][result1] == addr
+//@   assigns nothing
+//@   loop 1 invariant 0 - 1 <= rangeindex && (rangeindex < len(s.peers[int(po)]) || len(s.peers[int(po)]) == 0 && rangeindex == 0 - 1)
+//@   loop 1 invariant forall k :: 0 <= k && k <= rangeindex ==> s.peers[int(po)][k] != addr
+//@   loop 1 decreases len(s.peers[int(po)]) - rangeindex
+
+//@ func (*PSlice).Exists
+//@   property C21
+//@   requires psok(s)
+//@   ensures result <==> mem(s, addr)
+//@   assigns nothing
+
+//@ func (*PSlice).Remove
+//@   property C21
+//@   requires psok(s)
+//@   ensures still-ok: psok(s)
+//@   ensures removed: !mem(s, addr)
+//@   ensures others-kept: forall x boson.Address :: x != addr ==> (mem(s, x) <==> old(mem(s, x)))
+//@   ensures other-bins-untouched: forall b :: 0 <= b && b < s.maxBins && b != binOf(s, addr) ==> s.peers[b] == old(s.peers[b])
